@@ -39,7 +39,7 @@ pub static INFO: PropInfo = PropInfo {
         ("deser.InvalidPacketType", 10),
     ],
     engines_quick: &["e1", "e2"],
-    engines_thorough: &["e1", "e2", "e3"],
+    engines_thorough: &["e1", "e2", "e3", "e4"],
     run,
 };
 
